@@ -93,6 +93,9 @@ fn update_stages(
     stage: wgpu::ShaderStages,
     visited: &mut HashSet<naga::Handle<naga::Function>>,
 ) {
+    #[cfg(wgsl_to_wgpu_verif)]
+    crate::verif_hooks::count_stage_walk();
+
     // Search the function body to find function call statements
     update_stages_blocks(module, &function.body, global_stages, stage, visited);
 
